@@ -28,6 +28,10 @@ func main() {
 		droppedErrors(p, strings.Split(os.Args[2], ","), os.Args[3:])
 		return
 	}
+	if len(os.Args) >= 3 && os.Args[1] == "-nilphi" {
+		rules.NilPhiDerefs(p, os.Args[2:])
+		return
+	}
 	if len(os.Args) >= 3 && os.Args[1] == "-swallowed" {
 		rules.SwallowedErrors(p, os.Args[2:])
 		return
